@@ -221,6 +221,9 @@ def snap_grid(g):
 def snap_world(w):
     ids = []
     s = {
+        # process-wide settings that change what later calls return
+        "env": {"xarray_options": sorted((k, repr(v)) for k, v in xr.get_options().items()),
+                "numpy_errstate": sorted(np.geterr().items())},
         "ds": snap_obj(w.ds),
         "arrays": [snap_da(a) for a in w.arrays],
         "nps": [snap_obj(n) for n in w.nps],
@@ -403,7 +406,8 @@ class Counters:
         self.c = {"histories": 0, "steps": 0, "ops_ok": 0, "ops_raised": 0,
                   "fault_refused_fired": 0, "fault_user_raise_fired": 0,
                   "fault_injected_fired": 0, "fault_injected_missed": 0,
-                  "shared_object_reuse": 0, "fresh_runs": 0, "snapshots": 0, "fault_injected_at_dirty_line": 0}
+                  "shared_object_reuse": 0, "fresh_runs": 0, "snapshots": 0, "fault_injected_at_dirty_line": 0,
+                  "canary_ops_compared": 0}
         self.opkinds = {}
 
     def inc(self, k, n=1):
@@ -535,7 +539,8 @@ def gen_simple_world(rng):
         vars_["dy_g"] = {"dims": ["yg"], "data": {"gen": "dyadic", "seed": 4}}
         vars_["area_cc"] = {"dims": ["yc", "xc"], "data": {"gen": "dyadic", "seed": 5}}
         metrics.append([{"$tuple": ["Y"]}, ["dy_c", "dy_g"]])
-        metrics.append([{"$tuple": ["X", "Y"]}, ["area_cc"]])
+        if rng.random() < 0.5:  # otherwise the area has to be composed as dx * dy
+            metrics.append([{"$tuple": ["X", "Y"]}, ["area_cc"]])
     if has_z:
         vars_["dz_c"] = {"dims": ["zc"], "data": {"gen": "dyadic", "seed": 6}}
         vars_["dz_o"] = {"dims": ["zo"], "data": {"gen": "dyadic", "seed": 7}}
@@ -1007,6 +1012,26 @@ def minimise(spec, fingerprint):
 
 
 # ------------------------------------------------------------------ engine
+def canary_outcomes(ncan=10):
+    """Outcomes of a fixed set of operations, each issued first on a fresh world.  Evaluated when a
+    worker starts and again when it has finished its shard: between the two lie hundreds of
+    histories on other Grid objects, so a difference means that some operation left state behind
+    *outside* the objects it was given (module-level caches, mutable defaults, shared predefined
+    ufunc objects) that changes later results."""
+    outs = []
+    for j in range(ncan):
+        spec = make_case(core.derive("C18-canary", j), "quick")
+        row = []
+        for op in spec["ops"]:
+            if (op.get("fault") or {}).get("kind") == "inject":
+                continue
+            w = build_world(spec["world"])
+            o, _, _ = run_op(w, op["call"])
+            row.append([_opname(op), core.digest(o)])
+        outs.append(row)
+    return outs
+
+
 class Engine:
     prop = "C18"
 
@@ -1014,6 +1039,22 @@ class Engine:
         self.cnt = Counters()
         self.nsamples = 0
         self.minimised = set()
+        self.canary_before = canary_outcomes()
+
+    def finish(self, args):
+        after = canary_outcomes()
+        self.cnt.inc("canary_ops_compared", sum(len(r) for r in after))
+        for j, (a, b) in enumerate(zip(self.canary_before, after)):
+            if a != b:
+                k = [i for i, (x, y) in enumerate(zip(a, b)) if x != y][0]
+                return [{"fingerprint": f"C18/history-dependent/across-objects/{a[k][0]}",
+                         "spec": {"canary_replay": {"seed": args.seed, "shard": args.shard, "nshards": args.nshards,
+                                                    "runs": args.runs, "tier": args.tier, "canary": j}},
+                         "detail": f"operation {a[k][0]} of canary history {j}, issued first on fresh objects, gave another outcome "
+                                   f"after this worker had executed its shard of histories (on other Grid objects) than before: "
+                                   f"state is kept outside the objects an operation is given",
+                         "min_steps": None}]
+        return []
 
     def run(self, i, seed_i, tier):
         spec = make_case(seed_i, tier)
@@ -1044,6 +1085,20 @@ class Engine:
 
 
 def replay(spec):
+    if "canary_replay" in spec:
+        # re-execute the whole shard in this fresh interpreter, canaries before and after
+        import types
+
+        c = spec["canary_replay"]
+        eng = Engine()
+        for i in range(c["shard"], c["runs"], c["nshards"]):
+            spec_i = make_case(core.derive(c["seed"], "C18", i), c["tier"])
+            try:
+                execute(spec_i, eng.cnt)
+            except Exception:  # noqa
+                pass
+        vs = eng.finish(types.SimpleNamespace(**c))
+        return vs[0] if vs else None
     v, _ = execute(spec)
     return v
 
